@@ -65,6 +65,7 @@ BLOCKS_MULTI = [
     ["doc = '''first", "second <b>line</b>", "third'''"],
     ["lst = [1,", "       2,", "       3]"],
     ["total = 1 + \\", "    2"],
+    ["lone = 1 + \\", "\\", "    2"],  # a continuation line that holds nothing but the backslash
     ["d = {", "    'k': 'v',", "}"],
     ["call = max(1,", "           2)  # trailing"],
     ['fs = f"""Report', "for", "{x}", '"""'],
